@@ -35,6 +35,8 @@ def coq_ty(t):
             return "(option %s)" % coq_ty(t[1])
         if t[0] == "dict":
             return "(list (val * %s))" % coq_ty(t[1])
+        if t[0] == "tuple":
+            return "(list %s)" % coq_ty(t[1])
     return {"val": "val", "md": "md", "bool": "bool", "nat": "nat", "aw": "aw", "unit": "unit", "optval": "(option val)",
             "optnat": "(option nat)", "pick": "pick", "key": "val"}[t]
 
@@ -198,6 +200,9 @@ class NodeTr:
         if a.kind == "field":
             v = self.bind(binds, "rd %s" % self.opname(name), False)
             return (v, a.ty)
+        if a.kind == "upstreams" and self.sc.get("ports"):
+            v = self.bind(binds, "rd %s_upstreams" % self.cls, False)
+            return (v, ("list", "nat"))
         self.err("self.%s used as a value" % name, e)
 
     def as_val(self, term, ty, binds, node):
@@ -206,6 +211,8 @@ class NodeTr:
             return term
         if ty == "optval":                 # attribute that may hold the no_default sentinel
             return self.bind(binds, "lift %s" % term, True)
+        if ty == ("tuple", "val"):          # a python tuple of values
+            return "(VTup %s)" % term
         self.err("a %s is used where a value is needed" % (ty,), node)
 
     def ex_Tuple(self, e, env, binds):
@@ -386,6 +393,8 @@ class NodeTr:
         ti, tyi = self.ex(e.slice, env, binds)
         if tyv == "val" and tyi == "nat":
             return (self.bind(binds, "lift (py_index %s %s)" % (tv, ti), True), "val")
+        if isinstance(tyv, tuple) and tyv[0] == "list" and tyi == "nat":
+            return (self.bind(binds, "lift (nth_error %s %s)" % (tv, ti), True), tyv[1])
         self.err("subscript %s (%s[%s])" % (ast.unparse(e), tyv, tyi), e)
 
     def ex_ListComp(self, e, env, binds):
@@ -428,7 +437,11 @@ class NodeTr:
                 body = inner[0].term[len("lift "):]
                 v = self.bind(binds, "lift (map_opt (fun %s => %s) %s)" % (var, body, tl), True)
                 return (v, ("list", tyb))
-            self.err("comprehension body too complex: %s" % ast.unparse(e.elt), e)
+            body = " ".join("do %s <- %s ;;" % (b.var, b.term) for b in inner) + " ret %s" % tb
+            if any(b.term.startswith(("wr", "emit", "retain_refs", "release_refs")) for b in inner):
+                self.err("comprehension body has an effect: %s" % ast.unparse(e.elt), e)
+            v = self.bind(binds, "mapM (fun %s => %s) %s" % (var, body, tl), True)
+            return (v, ("list", tyb))
         self.err("comprehension %s" % ast.unparse(e), e)
 
     def ex_Call(self, e, env, binds):
@@ -452,6 +465,11 @@ class NodeTr:
                 if ty == "md" or (isinstance(ty, tuple) and ty[0] == "list"):
                     return (t, ty)           # a copy
                 self.err("list() of a %s" % (ty,), e)
+            if f.id == "all" and len(e.args) == 1 and not e.keywords:
+                t, ty = self.ex(e.args[0], env, binds)
+                if isinstance(ty, tuple) and ty[0] == "list" and isinstance(ty[1], tuple) and ty[1][0] == "list":
+                    return ("(forallb truthy_list %s)" % t, "bool")
+                self.err("all() of a %s" % (ty,), e)
             if f.id == "chain" and len(e.args) == 1 and not e.keywords:
                 # itertools.chain(x) of one argument: an iterator over x (a non-iterable raises before any effect)
                 t, ty = self.ex(e.args[0], env, binds)
@@ -464,6 +482,11 @@ class NodeTr:
                     self.assume("callable(self.%s) is True (the model takes a function there)" % name)
                     return ("true", "bool")
             self.err("call of %s" % f.id, e)
+        if ast.unparse(f) == "__builtins__['zip']" and len(e.args) == 1 and isinstance(e.args[0], ast.Starred) and not e.keywords:
+            t, ty = self.ex(e.args[0].value, env, binds)
+            if ty != PAIRS:
+                self.err("zip(*..) of a %s" % (ty,), e)
+            return ("(unzip_pairs %s)" % t, ("pair", ("tuple", "val"), MDS))
         if not isinstance(f, ast.Attribute):
             self.err("call %s" % ast.unparse(e), e)
         # ---- self.<something>(...) ------------------------------------------------------------------------------
@@ -484,11 +507,26 @@ class NodeTr:
             a = self.sc["attrs"].get(name)
             if a is not None and a.kind in ("func", "optfunc"):
                 return self.user_call(name, a, e, env, binds)
+            if name in self.sc.get("modelled_helpers", {}):
+                coqf, argtys, retty, text = self.sc["modelled_helpers"][name]
+                self.assume(text)
+                if len(e.args) != len(argtys) or e.keywords:
+                    self.err("call of self.%s" % name, e)
+                terms = []
+                for a1, want in zip(e.args, argtys):
+                    t1, ty1 = self.ex(a1, env, binds)
+                    if ty1 != want:
+                        self.err("self.%s(<%s>), expected %s" % (name, ty1, want), e)
+                    terms.append(t1)
+                return ("(%s)" % coqf.format(*terms), retty)
             if name in self.sc.get("helpers", {}):
                 return self.helper_call(name, e, env, binds)
             self.err("call of self.%s" % name, e)
         # ---- self.<attr>.<method>(...) / <alias>.<method>(...) --------------------------------------------------
         owner = self.self_attr(f.value)
+        if owner is not None and owner in self.sc["attrs"] and self.sc["attrs"][owner].kind == "outside_obj":
+            self.assume("self.%s.%s(..): %s" % (owner, f.attr, self.sc["attrs"][owner].const))
+            return ("tt", "aw")
         if owner == "upstreams" and f.attr == "index" and len(e.args) == 1 and isinstance(e.args[0], ast.Name) \
                 and e.args[0].id == "who" and not e.keywords:
             return (env["who"][0], "nat")          # the position of the calling upstream = the port of the model
@@ -661,6 +699,8 @@ class NodeTr:
             return [self.src(s, ind)] + self.emit_binds(binds, ind) + self.go(rest, env, ind)
         binds = []
         t, ty = self.ex(v, env, binds)
+        if not binds and ty == "aw":
+            return [self.src(s, ind), "%s(* outside the model: no step *)" % ind] + self.go(rest, env, ind)
         if not binds:
             self.err("statement without effect: %s" % ast.unparse(s), s)
         return [self.src(s, ind)] + self.emit_binds(binds, ind) + self.go(rest, env, ind)
@@ -669,6 +709,9 @@ class NodeTr:
         out = [self.src(s, ind)]
         if self.tails:
             self.err("return inside a loop", s)
+        if s.value is not None and isinstance(s.value, ast.Call) and self.self_attr(s.value.func) is not None \
+                and self.sc.get("helpers", {}).get(self.self_attr(s.value.func)) == "tail":
+            return self.inline_helper(s.value, [], env, ind, s, tail=True)
         if s.value is not None:
             binds = []
             t, ty = self.ex(s.value, env, binds)
@@ -718,6 +761,18 @@ class NodeTr:
             out.append("%s(*   %s *)" % (ind, cq(ast.unparse(s.body[0]))))
             out.append("%sdo _ <- wr %s_detach ;;" % (ind, self.cls))
             return out + self.go(rest, env, ind)
+        # for v in self.<dict>.values(): v.<method>()   -- the method is applied to every value
+        if isinstance(s.iter, ast.Call) and isinstance(s.iter.func, ast.Attribute) and s.iter.func.attr == "values" \
+                and not s.iter.args and self.self_attr(s.iter.func.value) is not None and isinstance(s.target, ast.Name) \
+                and len(s.body) == 1 and isinstance(s.body[0], ast.Expr) and isinstance(s.body[0].value, ast.Call) \
+                and isinstance(s.body[0].value.func, ast.Attribute) and isinstance(s.body[0].value.func.value, ast.Name) \
+                and s.body[0].value.func.value.id == s.target.id and not s.body[0].value.args:
+            owner = self.self_attr(s.iter.func.value)
+            meth = "each_" + s.body[0].value.func.attr
+            binds = []
+            self.container_call(owner, meth, [], env, binds, s)
+            out.append("%s(*   %s *)" % (ind, cq(ast.unparse(s.body[0]))))
+            return out + self.emit_binds(binds, ind) + self.go(rest, env, ind)
         # for v in <local iterator>: the rest of the iterator is consumed
         if isinstance(s.iter, ast.Name) and s.iter.id in env and isinstance(env[s.iter.id][1], tuple) \
                 and env[s.iter.id][1][0] == "iter" and isinstance(s.target, ast.Name):
@@ -823,8 +878,9 @@ class NodeTr:
             if [tyk] != op.args:
                 self.err("key of self.%s is a %s" % (owner, tyk), s)
             # defaultdict: reading a missing key creates the entry
-            self.stateful = True
-            self.bind(binds, "wr (%s %s)" % (self.opname(owner, "touch"), tk), True, "u")
+            if (owner, "touch") in self.sc["ops"]:
+                self.stateful = True
+                self.bind(binds, "wr (%s %s)" % (self.opname(owner, "touch"), tk), True, "u")
             out += self.emit_binds(binds, ind)
             env[tgt.id] = ((owner, tk), ("alias", op.ret))
             return out + self.go(rest, env, ind)
@@ -1030,13 +1086,13 @@ class NodeTr:
         return out
 
     # ---- helpers (other methods of the class called from update): inlined -------------------------------------------
-    def inline_helper(self, call, rest, env, ind, node):
+    def inline_helper(self, call, rest, env, ind, node, tail=False):
         name = self.self_attr(call.func)
         if name in self.inlining:
             self.err("recursive helper %s" % name, node)
         fn = find_func(self.classdef, name)
         spec = self.sc["helpers"][name]
-        if spec != "stmt":
+        if spec != ("tail" if tail else "stmt"):
             self.err("helper %s is used as a statement" % name, node)
         params = [a.arg for a in fn.args.args][1:]
         if len(call.args) != len(params) or call.keywords:
@@ -1054,11 +1110,15 @@ class NodeTr:
         # the helper must not return early (its continuation is the caller's)
         body = [b for b in fn.body]
         for n in ast.walk(fn):
-            if isinstance(n, ast.Return):
+            if isinstance(n, ast.Return) and not tail:
                 self.err("helper %s has a return statement" % name, node)
         self.inlining.append(name)
         marker = ast.Pass()
         marker._end_inline = (name, env)
+        if tail:            # `return self.helper()`: the helper's return is the caller's
+            res = out + self.go(body, env2, ind)
+            self.inlining.pop()
+            return res
         res = out + self.go(body + [marker] + rest, env2, ind)
         self.inlining.pop()
         return res
@@ -1297,8 +1357,22 @@ SCHEMAS["partition_unique"] = dict(
          ("_buffer", "contains"): Op(["val"], "bool", "rd"),
          ("_buffer", "values"): Op([], VALS, "rd"), ("_metadata_buffer", "values"): Op([], MDS, "rd")})
 
+# zip: maxsize / condition are the backpressure, modelled in Async/ZipBP.v; pack_literals is not translated
+SCHEMAS["zip"] = dict(
+    params=[("literals", "list (nat * val)"), ("maxsize", "nat")], state="nstate", store="store_id", ports=True,
+    attrs={"literals": param(("list", ("pair", "nat", "val"))), "maxsize": param("nat"), "upstreams": Attr("upstreams"),
+           "buffers": field(("list", PAIRS)),
+           "condition": Attr("outside_obj", const="the condition variable implements backpressure (maxsize), which is "
+                                                   "not part of the synchronous model (see Async/ZipBP.v); no step")},
+    helpers={"_emit_tuple": "tail"},
+    modelled_helpers={"pack_literals": ("pack_literals literals {0} 0", [("tuple", "val")], ("tuple", "val"),
+                                        "self.pack_literals(tup) is NOT translated: the model's Nodes.pack_literals is used")},
+    ops={("buffers", "alias"): Op(["nat"], PAIRS, "wr"), ("buffers", "getitem"): Op(["nat"], PAIRS, "rd"),
+         ("buffers", "item_append"): Op([PAIR], None, "wr"), ("buffers", "values"): Op([], ("list", PAIRS), "rd"),
+         ("buffers", "each_popleft"): Op([], "unit", "wr_get")})
+
 ORDER = ["accumulate", "map", "filter", "starmap", "pluck", "union", "Stream", "flatten", "partition", "sliding_window",
-         "unique", "collect", "slice", "combine_latest", "zip_latest", "partition_unique"]
+         "unique", "collect", "slice", "combine_latest", "zip_latest", "partition_unique", "zip"]
 
 
 def generate_all(core):
